@@ -10,7 +10,7 @@
 //	    compiles and runs the chunk with a global reg(f) that records closures; then for the
 //	    chunk itself and every recorded closure: export of the code, string.dump, load of the
 //	    dump, export of that, dump again.  Prints
-//	    <id> ok U:<unit export> F:<idx>;<dump hex>;<export of load(dump)>;<dump of load hex>|F:...
+//	    <id> ok U:<unit export> F:<idx>;<dump hex>;<export of load(dump)>;<dump of load hex>;<upvalue cells>;<index of the cell holding _ENV>|F:...
 //	    <id> fail <stage> <hexmsg>
 //
 // Text form of constants (tokens separated by commas, numbers in hex):
@@ -266,8 +266,15 @@ func doChunk(id string, f []string) (line string) {
 			return fail(id, "dump2", err.Error())
 		}
 		d2s, _ := d2.TryString()
-		parts = append(parts, fmt.Sprintf("F:%s;%s;%s;%s;%x", hexz(int64(idx)), hexs(d1s),
-			strings.Join(treeTokens(nil, rt.CodeValue(lcl.Code), 0), ","), hexs(d2s), len(lcl.Upvalues)))
+		// which upvalue cell of the reloaded closure holds the global environment (-1: none)
+		envIdx := -1
+		for i := range lcl.Upvalues {
+			if tb, ok := lcl.GetUpvalue(i).TryTable(); ok && tb == r.GlobalEnv() && envIdx < 0 {
+				envIdx = i
+			}
+		}
+		parts = append(parts, fmt.Sprintf("F:%s;%s;%s;%s;%x;%s", hexz(int64(idx)), hexs(d1s),
+			strings.Join(treeTokens(nil, rt.CodeValue(lcl.Code), 0), ","), hexs(d2s), len(lcl.Upvalues), hexz(int64(envIdx))))
 	}
 	return fmt.Sprintf("%s ok U:%s %s", id, unit, strings.Join(parts, "|"))
 }
